@@ -75,7 +75,9 @@ class ConFIG(Aggregator):
         units = torch.nan_to_num((matrix / (matrix.norm(dim=1)).unsqueeze(1)), 0.0)
         best_direction = torch.linalg.pinv(units) @ weights
 
-        if best_direction.norm() == 0:
+        # The direction is null when the weights are orthogonal to the unit vectors' span. It is
+        # compared to zero up to rounding errors, otherwise pure noise would be normalized.
+        if best_direction.norm() <= 100 * torch.finfo(matrix.dtype).eps * weights.norm():
             unit_target_vector = torch.zeros_like(best_direction)
         else:
             unit_target_vector = best_direction / best_direction.norm()
